@@ -43,7 +43,21 @@ pub open spec fn segs_wf(segs: Seq<Segment>) -> bool {
     // (two bound variables so that the trigger names both neighbours: no matching loop)
     &&& forall|i: int, j: int| 0 <= i && j == i + 1 && j < segs.len() ==> seg_all(&segs[i]).len() > 0
             && (#[trigger] segs[i]).start_offset + seg_all(&segs[i]).len() == (#[trigger] segs[j]).start_offset
+    // a segment's accumulator, when it holds messages, starts at its first buffered offset (acc_wf of the write path: seg_wf of
+    // segview.rs for the open segment, no accumulator on closed ones). The segment tier splits disk / buffer at the accumulator's
+    // base offset: added when the stub of Segment::get_messages_by_offset was LINKED to unit read_segment, whose real function
+    // needs it ([C02.link.read_partition.get_messages_by_offset])
+    &&& forall|i: int| 0 <= i < segs.len() ==> ((#[trigger] segs[i]).unsaved_messages is Some ==> acc_wf(&segs[i].unsaved_messages->0))
+    // the preconditions of the DISK tier, surfaced when the chain read_partition -> read_segment -> read_disk was linked: the
+    // reading invariant of unit read_disk (`rd_wf`, carried by name — see disk_tier_wf below), and A-size: a segment holds fewer
+    // than 2^32 messages (relative offsets in index records are u32; the same assumption as assume_segment_below_4g of unit offsets)
+    &&& forall|i: int| 0 <= i < segs.len() ==> disk_tier_wf(#[trigger] &segs[i]) && seg_all(&segs[i]).len() <= u32::MAX
 }
+// `rd_wf` of units/read_disk/prelude.rs (log reader, index reader and cached index are views of the same two files; one index
+// record per stored batch with its last relative offset and its file position; file below 4 GiB). Not expressible in this unit's
+// vocabulary: an uninterpreted hypothesis here and in unit read_segment, DEFINED as rd_wf in unit read_disk, which proves the
+// disk tier under it ([C02.link.read_segment.load_messages_from_disk]).
+pub uninterp spec fn disk_tier_wf(s: &Segment) -> bool;
 pub open spec fn sorted_by_start(segs: Seq<Segment>) -> bool {
     forall|i: int, j: int| 0 <= i < j < segs.len() ==> segs[i].start_offset < segs[j].start_offset
 }
@@ -58,8 +72,10 @@ pub open spec fn read_wf(p: &Partition) -> bool {
         }
     // nothing has been assigned yet: the offset counter still stands at 0 (Partition::create / purge / load)
     &&& !p.should_increment_offset ==> p.current_offset == 0
-    // A-size: offsets stay away from 2^64 by more than one request's count
-    &&& p.current_offset + 1 + u32::MAX <= u64::MAX
+    // A-size: offsets stay away from 2^63 by more than one request's count (was: from 2^64, `p.current_offset + 1 + u32::MAX <=
+    // u64::MAX`. F12 of DESIGN §8: the disk tier computes the capacity hint `(start_offset + end_offset + 1) as usize` — the
+    // precondition of the real Segment::load_messages_from_segment_file in unit read_disk, which the unlinked stubs had hidden)
+    &&& 2 * (p.current_offset + 1) + u32::MAX <= u64::MAX
     &&& cache_wf(p)
 }
 // The cache (property anchor `Partition.cache`: "contiguous suffix of the log kept in memory"), as the write path and
@@ -128,6 +144,11 @@ pub open spec fn hit_range(segs: Seq<Segment>, a: int, b: int, lo: int, hi: int)
     &&& forall|i: int| 0 <= i < segs.len() ==> ((lo <= i < hi) <==> #[trigger] seg_hits(segs, i, a, b))
 }
 pub open spec fn max_int(a: int, b: int) -> int { if a >= b { a } else { b } }
+// the arithmetic preconditions of the disk tier for a poll (offset, count) on segment s: the clamped start lies within u32 of the
+// segment start; the capacity hint `start + end + 1` (F12) does not overflow
+pub open spec fn disk_pre(s: Segment, offset: int, count: int) -> bool {
+    max_int(offset, s.start_offset as int) - s.start_offset <= u32::MAX && 2 * max_int(offset, s.start_offset as int) + count <= u64::MAX
+}
 
 // ---- stubs: the segment tier (ASSUMED here, proved by unit read_segment as [C02.tier]) ------------------------------
 impl Segment {
@@ -138,7 +159,11 @@ impl Segment {
     pub fn get_messages_by_offset(&self, offset: u64, count: u32) -> (r: Result<Vec<RetainedMessage>, IggyError>)
         requires
             contig(seg_all(self), self.start_offset as int),
+            self.unsaved_messages is Some ==> acc_wf(&self.unsaved_messages->0),
             offset + count <= u64::MAX, self.start_offset + count <= u64::MAX,
+            disk_tier_wf(self),
+            max_int(offset as int, self.start_offset as int) - self.start_offset <= u32::MAX,
+            2 * max_int(offset as int, self.start_offset as int) + count <= u64::MAX,
         ensures r is Ok ==> r->Ok_0@ == slice_of(seg_all(self), max_int(offset as int, self.start_offset as int),
                                                  max_int(offset as int, self.start_offset as int) + count - 1),
     { unimplemented!() }
